@@ -367,7 +367,7 @@ structure UState (σ : Type) where
   uout : List TxOut     -- outputCache
 
 /-- `UTXOSandbox.Transfer`; `false` = an error is returned (nothing is recorded then).  The code as
-repaired (`fix:` c846482) refuses every amount `≤ 0` by one test before the reader is asked; amounts
+repaired (`fix:` abdcf7e) refuses every amount `≤ 0` by one test before the reader is asked; amounts
 are naturals here and `0` stands for all of them (the drivers map a negative amount to `0`). -/
 def transfer (R : UReader σ) (u : UState σ) (a to : Addr) (amt : Nat) : UState σ × Bool :=
   if amt = 0 then (u, false)
